@@ -50,10 +50,11 @@ static void pull_feed(int mode, long k)
 	uint8_t ch;
 	long n = 0;
 	static uint8_t obuf[1 << 23];
-	int truncated = 0;
+	int truncated = 0, runaway = 0;
 	long on = 0;
 	while (1) {
 		if (mode == 0 && n >= k) break;
+		if (n > (16l << 20)) { runaway = 1; break; }      /* far beyond anything a history queues: the transmitter never goes idle */
 		if (!sercomm_drv_pull(&ch)) break;
 		if (on < (long)sizeof(obuf)) obuf[on++] = ch; else truncated = 1;
 		n++;
@@ -63,6 +64,7 @@ static void pull_feed(int mode, long k)
 	}
 	/* deliveries were printed inline; the pulled octets are reported afterwards with their count, the Python
 	 * side reconstructs positions from the frame structure */
+	if (runaway) { printf("RUNAWAY\n"); return; }
 	if (truncated) { printf("HARNESS-OVERFLOW\n"); return; }   /* a limit of this driver, never a property violation */
 	printf("p ");
 	if (!on) printf("-");
